@@ -92,6 +92,12 @@ def situations():
         ('method_rsa_but_b_expects_psk', {}, a_uses_rsa_b_expects_psk, False),
         ('rsa_wrong_key_a', {'rsa': rsa}, a_wrong_rsa_key, False),
         ('rsa_wrong_key_b', {'rsa': rsa}, b_wrong_rsa_key, False),
+        # identities that differ from the configured one only in the 0x20 bit of some octets (letter case; for
+        # binary identities another address): the peer holds the right key and signs the identity it presents
+        ('id_case_at_b', {'id_a': 'ALICE@openikev2', 'peer_id_seen_by_b': 'alice@openikev2'}, edit_none, False),
+        ('id_case_at_a', {'id_b': 'Bob@OpenIKEv2', 'over_a': {'peer_auth': {'id': 'bob@openikev2'}}}, edit_none, False),
+        ('id_ipv4_bit5_at_b', {'id_a': '10.0.0.97', 'peer_id_seen_by_b': '10.0.0.65'}, edit_none, False),
+        ('id_ipv4_bit5_at_a', {'id_b': '10.0.0.65', 'over_a': {'peer_auth': {'id': '10.0.0.97'}}}, edit_none, False),
         ('id_wrong_at_a', {}, a_expects_other_id_of_b, False),
         ('psk_wrong_at_a', {}, a_expects_other_psk_of_b, False),
     ]
